@@ -359,6 +359,56 @@ func runR35(c *Ctx) {
 			}
 		}
 	}
+	// (d) the pattern that reaches the matcher constructor is the one the caller wrote: at every call of NewMatcher
+	// outside its package the pattern argument is a string parameter of the calling function, and wherever that
+	// function is called inside its package the argument bound to that parameter is a parameter again - no rewriting
+	// on the way (an `expanded` pattern changes which cells a literal % or a metacharacter matches)
+	if ctor := p.anchorMatcherCtor(); ctor != nil {
+		var fromParam func(v ssa.Value, fn *ssa.Function, d int) string
+		fromParam = func(v ssa.Value, fn *ssa.Function, d int) string {
+			prm, ok := v.(*ssa.Parameter)
+			if !ok {
+				return describe(v)
+			}
+			if d > 3 {
+				return ""
+			}
+			pi := -1
+			for i, q := range fn.Params {
+				if q == prm {
+					pi = i
+				}
+			}
+			sites, _ := p.staticCallSites(fn)
+			for _, s := range sites {
+				caller := s.Parent()
+				if caller.Pkg != fn.Pkg || pi < 0 || pi >= len(s.Common().Args) {
+					continue
+				}
+				if bad := fromParam(s.Common().Args[pi], caller, d+1); bad != "" {
+					return bad
+				}
+			}
+			return ""
+		}
+		for _, fn := range p.Funcs {
+			if fn.Pkg == nil || fn.Pkg == ctor.Pkg || !inModule(fn.Pkg.Pkg) {
+				continue
+			}
+			eachInstr(fn, func(in ssa.Instruction) {
+				call, ok := in.(*ssa.Call)
+				if !ok || call.Call.StaticCallee() != ctor || len(call.Call.Args) < 1 {
+					return
+				}
+				key := fname(fn) + "|pattern handed to NewMatcher"
+				if bad := fromParam(call.Call.Args[0], fn, 0); bad != "" {
+					c.bad(key, p.instrPos(call), fmt.Sprintf("the pattern given to the matcher constructor is not the caller's pattern but %s: the pattern is rewritten on the way, so what a %% or a metacharacter inside it matches is no longer what the like/ilike rules say", bad))
+				} else {
+					c.ok(key, p.instrPos(call), "the caller's pattern reaches the constructor unchanged")
+				}
+			})
+		}
+	}
 	if fn := p.anchorMatchLoop(); fn != nil {
 		eachInstr(fn, func(in ssa.Instruction) {
 			call, ok := in.(*ssa.Call)
